@@ -47,14 +47,20 @@ func (a *SparseReal32Vector) EQUALS(b *SparseReal32Vector, epsilon float64) bool
   }
   for it := a.JOINT_ITERATOR_(b); it.Ok(); it.Next() {
     s1, s2 := it.GET()
-    if s1 == nil {
-      return false
-    }
-    if s2 == nil {
-      return false
-    }
-    if !s1.EQUALS(s2, epsilon) {
-      return false
+    // a missing entry is zero
+    switch {
+    case s1 == nil:
+      if !s2.Equals(ConstFloat32(0.0), epsilon) {
+        return false
+      }
+    case s2 == nil:
+      if !s1.Equals(ConstFloat32(0.0), epsilon) {
+        return false
+      }
+    default:
+      if !s1.EQUALS(s2, epsilon) {
+        return false
+      }
     }
   }
   return true
@@ -293,21 +299,7 @@ func (r *SparseReal32Vector) VdivS(a ConstVector, b ConstScalar) Vector {
   return r
 }
 func (r *SparseReal32Vector) VDIVS(a *SparseReal32Vector, b *Real32) *SparseReal32Vector {
-  if r.Dim() != a.Dim() {
-    panic("vector dimensions do not match")
-  }
-  for it := r.JOINT_ITERATOR_(a); it.Ok(); it.Next() {
-    s_r := it.s1
-    s_a := it.s2
-    if s_r == nil {
-      s_r = r.AT(it.Index())
-    }
-    if s_a == nil {
-      s_r.SetFloat32(0.0)
-    } else {
-      s_r.DIV(s_a, b)
-    }
-  }
+  r.VdivS(a, b)
   return r
 }
 /* -------------------------------------------------------------------------- */
